@@ -6,8 +6,8 @@
 // (c0,c1 bound to allocator object A, c2 bound to allocator object B). Every program is executed from
 // scratch on the real library code, together with the same program on std::allocator containers.
 //
-// usage: h_stl --family <f> --mode std|any --depth D [--from_level L] [--shard k/n] [--deadline_s S | --deadline_at EPOCH] --tier quick|thorough --out f
-//        h_stl --family <f> --mode std|any --replay '[op,op,...]'
+// usage: h_stl --family <f> --mode std|any|shared --depth D [--from_level L] [--shard k/n] [--deadline_s S | --deadline_at EPOCH] --tier quick|thorough --out f
+//        h_stl --family <f> --mode std|any|shared --replay '[op,op,...]'
 #define FOONATHAN_MEMORY_NO_NODE_SIZE 1
 #include "../engine/core.hpp"
 
@@ -172,6 +172,48 @@ struct rawlog
     }
 };
 
+// a SHARED RawAllocator (is_shared_allocator): a copyable handle to one of the instrumented allocator objects; the
+// library embeds a COPY of it in every std_allocator / deleter and must compare the copies with operator==
+struct sharedlog
+{
+    rawlog* target;
+    explicit sharedlog(rawlog& r) : target(&r) {}
+    void* allocate_node(std::size_t size, std::size_t align)
+    {
+        return target->allocate_node(size, align);
+    }
+    void deallocate_node(void* p, std::size_t size, std::size_t align) noexcept
+    {
+        target->deallocate_node(p, size, align);
+    }
+    void* allocate_array(std::size_t count, std::size_t size, std::size_t align)
+    {
+        return target->allocate_array(count, size, align);
+    }
+    void deallocate_array(void* p, std::size_t count, std::size_t size, std::size_t align) noexcept
+    {
+        target->deallocate_array(p, count, size, align);
+    }
+    friend bool operator==(const sharedlog& a, const sharedlog& b) noexcept
+    {
+        return a.target == b.target;
+    }
+    friend bool operator!=(const sharedlog& a, const sharedlog& b) noexcept
+    {
+        return a.target != b.target;
+    }
+};
+namespace foonathan
+{
+    namespace memory
+    {
+        template <>
+        struct is_shared_allocator<sharedlog> : std::true_type
+        {
+        };
+    } // namespace memory
+} // namespace foonathan
+
 static rawlog  ALLOC_A(0), ALLOC_B(1);
 static rawlog* HOME[3] = {&ALLOC_A, &ALLOC_A, &ALLOC_B};
 
@@ -219,6 +261,36 @@ __attribute__((noinline)) static void scribble_stack()
 inline auto lib_unique(rawlog& r, int v, rawlog*)
 {
     return fm::allocate_unique<int>(r, v);
+}
+inline auto lib_unique(rawlog& r, int v, sharedlog*)
+{
+    return fm::allocate_unique<int>(sharedlog(r), v);
+}
+inline auto lib_unique_array(rawlog& r, std::size_t n, sharedlog*)
+{
+    return fm::allocate_unique<int[]>(sharedlog(r), n);
+}
+inline void lib_throwing(int what, rawlog& r, sharedlog*)
+{
+    sharedlog s(r);
+    if (what == 0)
+        (void)fm::allocate_unique<thrower>(s, 1);
+    else if (what == 1)
+        (void)fm::allocate_unique<thrower[]>(s, std::size_t(3));
+    else
+        (void)fm::allocate_shared<thrower>(s, 1);
+}
+__attribute__((noinline, optimize("O0"))) void lib_base_convert(rawlog& r, sharedlog*)
+{
+    sharedlog                              s(r);
+    auto                                   d = fm::allocate_unique<pderived>(s);
+    fm::unique_base_ptr<pbase, sharedlog> b = std::move(d);
+    scribble_stack();
+    b.reset();
+}
+inline std::shared_ptr<int> lib_shared(rawlog& r, int v, sharedlog*)
+{
+    return fm::allocate_shared<int>(sharedlog(r), v);
 }
 inline auto lib_unique(rawlog& r, int v, fm::any_allocator*)
 {
@@ -287,7 +359,13 @@ struct pol_lib
     template <class T>
     static alloc<T> make(rawlog& r)
     {
-        return alloc<T>(r);
+        if constexpr (std::is_same<Raw, sharedlog>::value)
+        {
+            sharedlog s(r);
+            return alloc<T>(s); // embeds a copy of the handle
+        }
+        else
+            return alloc<T>(r);
     }
     using uptr = std::unique_ptr<int, fm::allocator_deleter<int, Raw>>;
     using uarr = std::unique_ptr<int[], fm::allocator_deleter<int[], Raw>>;
@@ -1401,7 +1479,11 @@ struct entry
     run_fn      fn;
     bool        direct;
 };
-#define FAM(F) {F::name(), "std", &run_program<F, rawlog>, F::direct}, {F::name(), "any", &run_program<F, fm::any_allocator>, F::direct}
+#define FAM(F)                                                                                                          \
+    {F::name(), "std", &run_program<F, rawlog>, F::direct}, {F::name(), "any", &run_program<F, fm::any_allocator>, F::direct}, \
+    {                                                                                                                   \
+        F::name(), "shared", &run_program<F, sharedlog>, F::direct                                                      \
+    }
 static const entry TABLE[] = {FAM(F_list),   FAM(F_forward_list), FAM(F_set),    FAM(F_map),    FAM(F_unordered_set),
                               FAM(F_unordered_map), FAM(F_vector), FAM(F_deque), FAM(F_string), FAM(F_shared),
                               FAM(F_unique), FAM(F_unique_array), FAM(F_direct)};
@@ -1595,7 +1677,9 @@ int main(int argc, char** argv)
     {
         std::vector<int> ops = parse_ints(replay.c_str());
         std::printf("family %s, allocators through %s; c0,c1 -> allocator object A, c2 -> allocator object B\nprogram:",
-                    e->family, mode == "any" ? "any_std_allocator<T>" : "std_allocator<T, rawlog>");
+                    e->family, mode == "any"      ? "any_std_allocator<T>"
+                    : mode == "shared" ? "std_allocator<T, sharedlog> (shared allocator, embedded by value)"
+                                       : "std_allocator<T, rawlog>");
         for (int c : ops)
             std::printf(" %s;", op_text(c, e->direct).c_str());
         std::printf("\n");
